@@ -85,6 +85,7 @@ impl Engine for MVRegEng {
     type O = O;
     const NAME: &'static str = "mvreg";
     const HAS_RESET: bool = true;
+    const HAS_CTX: bool = true;
 
     fn new_state() -> S {
         MVReg::new()
@@ -156,6 +157,9 @@ impl Engine for MVRegEng {
     }
     fn semantic_prop() -> &'static str {
         "C06"
+    }
+    fn gen_op_props() -> Vec<&'static str> {
+        vec!["C07", "C06"]
     }
     fn is_ctx_path(path: &str) -> bool {
         path.contains(".add") || path.contains(".rm")
